@@ -220,6 +220,31 @@ theorem tenant_sees_all_own (t : Int) (sh : Shard) (j : Nat) (d : Doc) (r : Repo
     ⟨d.repo, j, r.name, r.id, d.name⟩ ∈ (search (hasAccess true (.tenant t)) sh false 0).files :=
   files_complete _ sh j d r hd hr ((hasAccess_tenant_iff t r.tenant).2 hown.symm) htomb hft hc
 
+/-! ### several shards -/
+
+/-- every file and every URL-map entry of every per-shard result that the sharded searcher forwards comes from a
+    repository of that shard which the context may access -/
+theorem sharded_filtered (acc : Int → Bool) (shs : List (Shard × Bool)) (maxRepo : Nat) :
+    ∀ o ∈ searchShards acc shs maxRepo, ∃ p ∈ shs,
+      (∀ f ∈ o.files, FileFrom acc p.1 f) ∧
+      (∀ e ∈ o.urls, ∃ r ∈ p.1.repos, acc r.tenant = true ∧ e ∈ repoPairs (·.url) (·.url) r) ∧
+      (∀ e ∈ o.frags, ∃ r ∈ p.1.repos, acc r.tenant = true ∧ e ∈ repoPairs (·.frag) (·.frag) r) := by
+  intro o ho
+  unfold searchShards at ho
+  rw [List.mem_map] at ho
+  obtain ⟨p, hp, rfl⟩ := ho
+  exact ⟨p, hp, files_filtered acc p.1 p.2 maxRepo, (maps_filtered acc p.1 p.2 maxRepo).1, (maps_filtered acc p.1 p.2 maxRepo).2⟩
+
+/-- the `RepoSet` that replaces `type:repo child` for a request holds only names of live repositories, of some shard,
+    that the request's context may access -/
+theorem typerepo_set_all_filtered (acc : Int → Bool) (shs : List (Shard × ListMode × Bool)) :
+    ∀ n ∈ typeRepoSetAll acc shs, ∃ p ∈ shs, ∃ r ∈ p.1.repos, acc r.tenant = true ∧ r.tomb = false ∧ r.name = n := by
+  intro n hn
+  unfold typeRepoSetAll at hn
+  rw [List.mem_flatMap] at hn
+  obtain ⟨p, hp, hn⟩ := hn
+  exact ⟨p, hp, typerepo_set_filtered acc p.1 p.2.1 p.2.2 n hn⟩
+
 /-! ### non-interference -/
 
 /-- **non-interference, search**: the whole result of a search (files, RepoURLs, LineFragments) is unchanged when every
